@@ -1233,6 +1233,10 @@ class Server:
     @PathPermissions(PathPermissions.writable)
     async def rmd(self, connection, rest):
         real_path, virtual_path = self.get_paths(connection, rest)
+        if virtual_path == pathlib.PurePosixPath("/"):
+            # base directory itself: removing it changes its parent
+            connection.response("550", "can't remove root directory")
+            return True
         await connection.path_io.rmdir(real_path)
         connection.response("250", "")
         return True
@@ -1375,6 +1379,10 @@ class Server:
     @PathPermissions(PathPermissions.writable)
     async def rnfr(self, connection, rest):
         real_path, virtual_path = self.get_paths(connection, rest)
+        if virtual_path == pathlib.PurePosixPath("/"):
+            # base directory itself: renaming it changes its parent
+            connection.response("550", "can't rename root directory")
+            return True
         connection.rename_from = real_path
         connection.response("350", "rename from accepted")
         return True
